@@ -2,8 +2,11 @@
 references into text of a fixed carrier grammar, loads it with `{"*.*": FQN()}` and reports
 what every reference resolved to.
 
-Abstract tree node: {kind: pkg|cls|use|open, name, refs: [dotted names], kids: [nodes]}
+Abstract tree node: {kind: pkg|cls|grp|use|open, name, refs: [dotted names], kids: [nodes]}
   pkg NAME [uses r1, r2] { kids }     cls NAME [ext r1, r2]     use r     open r
+  grp { kids }    an anonymous container (it has no `name` attribute at all)
+Two metamodels: generated classes only, and a variant with a user class for Pkg whose
+len() is the number of classes it directly contains (so some packages are falsy in Python).
 Object ids are assigned in textual (pre-)order, 1 = the model root; references are listed in
 textual order, which is the order in which textX resolves them.
 No semantics lives here: rendering, loading, reading what happened.
@@ -12,8 +15,9 @@ from __future__ import annotations
 
 GRAMMAR = r'''
 Model: elems*=Elem;
-Elem:  Pkg | Cls | Use | Open;
+Elem:  Pkg | Cls | Grp | Use | Open;
 Pkg:   'pkg' name=ID ('uses' uses+=[Cls:QName][','])? '{' elems*=Elem '}';
+Grp:   'grp' '{' elems*=Elem '}';
 Cls:   'cls' name=ID ('ext' ext+=[Cls:QName][','])?;
 Use:   'use' ref=[Cls:QName];
 Open:  'open' pk=[Pkg:QName];
@@ -21,20 +25,23 @@ QName: ID('.'ID)*;
 '''
 # attributes in grammar order: this is the order of the object's __dict__
 ATTRS = {"Model": [("cont", "elems")], "Pkg": [("ref", "uses"), ("cont", "elems")],
-         "Cls": [("ref", "ext")], "Use": [("ref", "ref")], "Open": [("ref", "pk")]}
-CLS = {"pkg": "Pkg", "cls": "Cls", "use": "Use", "open": "Open"}
-REFATTR = {"pkg": ("uses", "Cls"), "cls": ("ext", "Cls"), "use": ("ref", "Cls"), "open": ("pk", "Pkg")}
+         "Grp": [("cont", "elems")], "Cls": [("ref", "ext")], "Use": [("ref", "ref")], "Open": [("ref", "pk")]}
+CLS = {"pkg": "Pkg", "cls": "Cls", "grp": "Grp", "use": "Use", "open": "Open"}
+REFATTR = {"grp": (None, None), "pkg": ("uses", "Cls"), "cls": ("ext", "Cls"), "use": ("ref", "Cls"), "open": ("pk", "Pkg")}
 
 
-def abstract(tree):
-    """tree (list of top-level nodes) -> (objs, refs) as Fqn.tla wants them."""
-    objs = [dict(cls="Model", name="-", named=False, parent=0,
+def abstract(tree, user_classes=False):
+    """tree (list of top-level nodes) -> (objs, refs) as Fqn.tla wants them.
+    user_classes: the load uses the Pkg user class, whose truth value is "contains a class"."""
+    objs = [dict(cls="Model", name="-", named=False, truthy=True, parent=0,
                  attrs=[dict(k="cont", attr="elems", els=[])])]
     refs = []
 
     def add(node, parent):
         cls = CLS[node["kind"]]
-        objs.append(dict(cls=cls, name=node.get("name") or "-", named=bool(node.get("name")), parent=parent,
+        truthy = not (user_classes and cls == "Pkg") or any(k["kind"] == "cls" for k in node.get("kids", []))
+        objs.append(dict(cls=cls, name=node.get("name") or "-", named=bool(node.get("name")), truthy=truthy,
+                         parent=parent,
                          attrs=[dict(k=k, attr=a, els=[]) for k, a in ATTRS[cls]]))
         i = len(objs)
         for a in objs[parent - 1]["attrs"]:
@@ -61,6 +68,11 @@ def text(tree):
             for k in n.get("kids", []):
                 emit(k, ind + 1)
             out.append(pad + "}")
+        elif n["kind"] == "grp":
+            out.append(f"{pad}grp {{")
+            for k in n.get("kids", []):
+                emit(k, ind + 1)
+            out.append(pad + "}")
         elif n["kind"] == "cls":
             e = (" ext " + ", ".join(n["refs"])) if n.get("refs") else ""
             out.append(f"{pad}cls {n['name']}{e}")
@@ -74,7 +86,7 @@ def text(tree):
 
 
 class Real:
-    def __init__(self):
+    def __init__(self, user_classes=False):
         from textx import metamodel_from_str
         from textx.scoping.providers import FQN
 
@@ -84,11 +96,25 @@ class Real:
             """The FQN provider itself; every call and its result is written down."""
 
             def __call__(self, obj, attr, obj_ref):
+                from textx import get_model
                 r = FQN.__call__(self, obj, attr, obj_ref)
-                log.append((obj, attr.name, obj_ref.obj_name, r))
+                # ids are taken now: after a failed load user-class objects lose their attributes
+                ids = Real._ids(get_model(obj))
+                log.append((ids[id(obj)], attr.name, obj_ref.obj_name, 0 if r is None else ids.get(id(r), -1)))
                 return r
 
-        self.mm = metamodel_from_str(GRAMMAR)
+        classes = []
+        if user_classes:
+            class Pkg:
+                """A package counts its classes: len(pkg) == 0 (falsy) when it directly contains none."""
+
+                def __init__(self, parent=None, name=None, uses=None, elems=None):
+                    self.parent, self.name, self.uses, self.elems = parent, name, uses, elems
+
+                def __len__(self):
+                    return sum(1 for x in self.elems if type(x).__name__ == "Cls")
+            classes = [Pkg]
+        self.mm = metamodel_from_str(GRAMMAR, classes=classes)
         self.mm.register_scope_providers({"*.*": RecordingFQN()})
 
     @staticmethod
@@ -107,7 +133,6 @@ class Real:
     def load(self, tree):
         """-> dict(outcome=[target id per reference in textual order, 0 = unknown, nothing after it],
                    calls=[[owner, attr, name]], error=None|str)"""
-        from textx import get_model
         from textx.exceptions import TextXSemanticError
         del self.log[:]
         err = None
@@ -122,15 +147,15 @@ class Real:
             return dict(outcome=[-1], calls=[], error=type(e).__name__ + ": " + str(e)[:200])
         if not self.log:
             return dict(outcome=[], calls=[], error=err)
-        ids = self._ids(model if model is not None else get_model(self.log[0][0]))
         outcome, calls = [], []
-        for obj, attr, name, r in self.log:
-            calls.append([ids[id(obj)], attr, name])
-            outcome.append(0 if r is None else ids.get(id(r), -1))
+        for owner, attr, name, r in self.log:
+            calls.append([owner, attr, name])
+            outcome.append(r)
         if (err is not None) != (outcome[-1] == 0) or 0 in outcome[:-1]:
             return dict(outcome=[-1], calls=calls, error=f"load outcome inconsistent with provider results: {err} {outcome}")
         if model is not None:
             # what the model holds must be what the provider returned
+            ids = self._ids(model)
             held = []
 
             def walk(o):
